@@ -90,6 +90,15 @@ class ArbModel:
         self.widths = dict(zip(comp.in_names, comp.in_widths))
         self.rejected = h.meta["rejected"]
         self._owner = {}
+        # the ports a feature set implies must exist (a port that is missing cannot carry / relay anything)
+        self.missing = []
+        for f in sorted(self.afeat):
+            if f"t_{f}" not in self.ii and f"t_{f}" not in self.pi:
+                self.missing.append(f"the arbiter declares feature {f!r} but its shared bus has no {f!r} line")
+        for k in range(n):
+            for f in sorted(self.ifeat[k]):
+                if f"i{k}_{f}" not in self.ii and f"i{k}_{f}" not in self.pi:
+                    self.missing.append(f"initiator {k} declares feature {f!r} but its interface has no {f!r} line")
 
     def ctl_vectors(self):
         """All combinations of (cyc, stb, lock) per initiator (lock only where present)."""
@@ -116,7 +125,7 @@ class ArbModel:
                 d[f"rej_{nme}"] = token(5, phase, self.widths[f"rej_{nme}"], salt)
             d["rej_cyc"] = d["rej_stb"] = rej
         ack, err, rty, stall = resp
-        d["t_ack"], d["t_err"], d["t_rty"], d["t_stall"] = ack, err, rty, stall
+        d["t_ack"], d["t_err"], d["t_rty"], d["t_stall"] = ack, err, rty, stall        # (absent lines are dropped below)
         d["t_dat_r"] = token(0, phase, self.widths["t_dat_r"], 3)
         return tuple(d.get(nme, 0) for nme in self.comp.in_names)
 
@@ -159,7 +168,7 @@ class ArbModel:
                 outs, _ = self.comp.step(hw, letter)
                 for k in list(cands):
                     exp = self.expected_bus(k, letter)
-                    if any(outs[self.pi[f"t_{nme}"]] != v for nme, v in exp.items()):
+                    if any(outs[self.pi[f"t_{nme}"]] != v for nme, v in exp.items() if f"t_{nme}" in self.pi):
                         cands.discard(k)
         res = next(iter(cands)) if len(cands) == 1 else None
         if self.n == 1 and 0 in cands:
